@@ -16,9 +16,12 @@ package c01
 //                       glyph repertoire (which may hold the whole alphabets the text touches,
 //                       so that real multi-code runs exist)
 //             identity  Type0 only: code = UTF-16 value of the (BMP) character
-//             diff      Type1 only: codes handed out from a base, every one named in the
+//             diff      Type1 or TrueType: codes handed out from a base, every one named in the
 //                       /Differences array of the /Encoding dictionary by its Adobe Glyph List
-//                       name (the custom encodings TeX and subsetters write)
+//                       name (the custom encodings TeX and subsetters write); optionally the
+//                       array first names some of those codes otherwise (a later run naming a
+//                       code again decides, ISO 32000-1 9.6.6.1) and names codes the text does
+//                       not use by names outside the Adobe Glyph List
 //   encoding  simple fonts: WinAnsiEncoding | MacRomanEncoding | absent (Type1: Standard),
 //             as a name or as an /Encoding dictionary with /BaseEncoding; with remapped codes
 //             the /Encoding is what a subsetter leaves behind and does NOT give the text
@@ -68,6 +71,7 @@ type fontSpec struct {
 	MaxRun  int    `json:"max_run"`   // longest range written (0 = no limit)
 	Widths  bool   `json:"widths"`    // simple: /FirstChar /LastChar /Widths present
 	Upper   bool   `json:"upper"`     // hex digits of the CMap in upper case
+	Extra   int    `json:"extra"`     // diff: bit 0 = a leading run names the first codes otherwise, bit 1 = a trailing run of unknown names on unused codes
 }
 
 type fline struct {
@@ -163,24 +167,6 @@ func aglName(r rune) (string, bool) {
 		'é': "eacute", 'ï': "idieresis", 'Å': "Aring", 'ö': "odieresis", 'ü': "udieresis", 'ñ': "ntilde",
 		'ç': "ccedilla", 'à': "agrave", 'Ç': "Ccedilla", '€': "Euro", 'ß': "germandbls"}[r]
 	return n, ok
-}
-
-// baseDecode is what code b shows in the base encoding alone, for b in 0x20..0x7E
-// (independent tables; StandardEncoding differs from ASCII at 0x27 and 0x60 only).
-func baseDecode(enc string, b byte) rune {
-	switch enc {
-	case "WinAnsiEncoding":
-		return charmap.Windows1252.DecodeByte(b)
-	case "MacRomanEncoding":
-		return charmap.Macintosh.DecodeByte(b)
-	}
-	switch b {
-	case 0x27:
-		return 0x2019
-	case 0x60:
-		return 0x2018
-	}
-	return rune(b)
 }
 
 // glyphsOf cuts a text into the glyphs of the font.
@@ -677,6 +663,10 @@ func renderFontPDF(k fcase, tr *writers.Trace) ([]byte, fstats) {
 			}
 			if fs.Codes == "diff" {
 				var ds []string
+				if fs.Extra&1 != 0 && len(t.list) > 0 {
+					// superseded by the runs below: the codes get their real names after this
+					ds = append(ds, fmt.Sprint(t.list[0].code), "/bullet", "/g17", "/Euro")
+				}
 				last := -2
 				for _, e := range t.list {
 					if e.code != last+1 || r.Chance(1, 5) {
@@ -685,6 +675,10 @@ func renderFontPDF(k fcase, tr *writers.Trace) ([]byte, fstats) {
 					n, _ := aglName([]rune(e.glyph)[0])
 					ds = append(ds, "/"+n)
 					last = e.code
+				}
+				if fs.Extra&2 != 0 {
+					// codes the text does not use (the text's codes end at 0x7E at the latest)
+					ds = append(ds, "200", "/.notdef", "/g201", "/uni20AC", "255", "/cid255", "/beyond.byte")
 				}
 				be := ""
 				if fs.Enc != "" {
@@ -926,7 +920,8 @@ func genFontSpec(r *hx.Rng) fontSpec {
 	case 1: // ... and a ToUnicode CMap says the same
 		fs.Codes = "enc"
 	case 2: // the /Differences of the /Encoding dictionary give the text, with or without a CMap
-		fs.Kind, fs.Codes = "Type1", "diff"
+		fs.Codes = "diff"
+		fs.Extra = r.Intn(4)
 		fs.Base = hx.Pick(r, []int{0x21, 0x30, 0x41})
 		fs.ToUni = hx.Pick(r, []string{"none", "none", "bfchar", "bfrange", "mixed"})
 	default: // a subset font: only the ToUnicode CMap gives the text
@@ -1008,29 +1003,6 @@ func fontNfcTable(doc fdoc) string {
 	for _, p := range doc.Pages {
 		for _, l := range p.Lines {
 			add(l.Text)
-		}
-	}
-	// NFC of what the codes of a /Differences font show in the base encoding alone (the
-	// model follows the code, which does not apply /Differences)
-	for i, fs := range doc.Fonts {
-		if fs.Codes != "diff" {
-			continue
-		}
-		var texts []string
-		for _, p := range doc.Pages {
-			for _, l := range p.Lines {
-				if l.Font == i {
-					texts = append(texts, l.Text)
-				}
-			}
-		}
-		t := buildGlyphTable(fs, texts)
-		for _, tx := range texts {
-			var rs []rune
-			for _, b := range t.encode(tx, false) {
-				rs = append(rs, baseDecode(fs.Enc, b))
-			}
-			add(string(rs))
 		}
 	}
 	add("STALE-CONTENT")
@@ -1146,6 +1118,9 @@ func countFontCase(c *hx.Ctx, k fcase) {
 				e += "(dict)"
 			}
 			c.Count("font:encoding=" + e)
+		}
+		if fs.Codes == "diff" {
+			c.Count(fmt.Sprintf("font:differences kind=%s superseded-run=%v unknown-names=%v", fs.Kind, fs.Extra&1 != 0, fs.Extra&2 != 0))
 		}
 		c.Count(fmt.Sprintf("font:ligatures=%v", fs.Ligs))
 	}
